@@ -1,8 +1,251 @@
 import Driver.Proto
-namespace Driver.C20
+import AdaptaVerif.Model.Frame
+import AdaptaVerif.Num.Sqrt
+/-!
+Driver mode c20 (runtime half of C20).  The harness ran the same API calls twice ("A", "B") — on
+equal inputs with heap perturbation in between (`*-twice`, `removeoverlaps-coincident`), or on an
+input and its image under a frame change (`route-translate`, `route-symmetry`, `vpsc-translate`,
+`vpsc-permute`).  Both outputs arrive as exact hex floats; this driver decides:
 
-def run (_args : List String) : IO UInt32 := do
-  IO.eprintln "driver mode c20: not implemented yet"
-  return 2
+* bit-identity (`Dbl` equality: value AND sign of zero) for routes, solver positions, removeoverlaps;
+* |a−b| ≤ 1e-9·max(1,|a|) for layout positions;
+* exact translation of raw routes (and of VPSC positions up to the rounding of the block-position
+  division: exactness is counted, 1e-9·scale is enforced);
+* equality of route COSTS under the 8 symmetries, the cost being recomputed here from the returned
+  points with the cost functions of Model/Frame.lean (`orthCost`, `sqLens`, `bends`), which are proved
+  frame-invariant in Props/C20.lean — exactly for orthogonal routes, through certified square-root
+  enclosures (Num/Sqrt.lean) and 1e-9 relative for polyline routes.
+-/
+namespace Driver.C20
+open Driver AdaptaVerif.Num
+open AdaptaVerif.Model.Geometry (Pt)
+open AdaptaVerif.Model.Frame
+
+def tolRel : Rat := 1 / 1000000000
+
+def parseDbls (ts : Array String) : Option (Array Dbl) := ts.mapM parseDbl
+
+/-- labelled vectors of one run: lines `A <label> v…` -/
+def runVecs (c : Case) (run : String) : Array (String × Array String) :=
+  (c.get run).filterMap (fun l => if l.size ≥ 1 then some (l[0]!, l.extract 1 l.size) else none)
+
+def findLabel (vs : Array (String × Array String)) (lab : String) : Option (Array String) :=
+  (vs.find? (fun p => p.1 == lab)).map (·.2)
+
+def dblStr (d : Dbl) : String :=
+  match d with
+  | .fin s v => (if s && v == 0 then "-0" else ratToString v)
+  | .inf s => if s then "-inf" else "inf"
+  | .nan => "nan"
+
+def heapDiffers (c : Case) : Bool :=
+  match c.get1 "heap" with
+  | some h => h.size ≥ 2 && h[0]! != h[1]!
+  | none => false
+
+def closeRel (a b : Rat) : Bool := absRat (a - b) ≤ tolRel * (if absRat a ≤ 1 then 1 else absRat a)
+
+/-- compare all labelled vectors of A and B with `eq`; message names the first difference -/
+def compareRuns (c : Case) (what : String) (eq : Dbl → Dbl → Bool) : Option String × Nat × Nat := Id.run do
+  let a := runVecs c "A"
+  let b := runVecs c "B"
+  if a.size != b.size then return (some s!"{what}: run A produced {a.size} vectors, run B {b.size}", 0, 0)
+  let mut n := 0
+  let mut nbit := 0
+  for (lab, av) in a do
+    match findLabel b lab with
+    | none => return (some s!"{what}: run B has no vector {lab}", n, nbit)
+    | some bv =>
+      if av.size != bv.size then
+        return (some s!"{what}: {lab} has {av.size} values in run A and {bv.size} in run B", n, nbit)
+      match parseDbls av, parseDbls bv with
+      | some ad, some bd =>
+        for i in [0:ad.size] do
+          n := n + 1
+          if ad[i]! == bd[i]! then nbit := nbit + 1
+          if !(eq ad[i]! bd[i]!) then
+            return (some s!"{what}: {lab}[{i}] A={av[i]!} ({dblStr ad[i]!}) B={bv[i]!} ({dblStr bd[i]!})", n, nbit)
+      | _, _ => return (some s!"{what}: unparsable value in {lab}", n, nbit)
+  return (none, n, nbit)
+
+def checkTwice (c : Case) (what : String) : CaseResult :=
+  let (e, n, _) := compareRuns c what (fun x y => x == y)
+  let hd := heapDiffers c
+  match e with
+  | some m => { verdict := .specfail m, nontrivial := true,
+                stats := [("values.compared", n), ("heap.order.differs", if hd then 1 else 0)] }
+  | none => { verdict := .ok, nontrivial := hd && n > 0,
+              stats := [("values.compared", n), ("heap.order.differs", if hd then 1 else 0)] }
+
+def checkLayoutTwice (c : Case) : CaseResult :=
+  let eq (x y : Dbl) : Bool :=
+    match x, y with
+    | .fin _ a, .fin _ b => closeRel a b
+    | _, _ => x == y
+  let (e, n, nbit) := compareRuns c "not reproducible to 1e-9 (layout)" eq
+  let hd := heapDiffers c
+  let st := [("values.compared", n), ("layout.values.bitidentical", nbit), ("heap.order.differs", if hd then 1 else 0)]
+  match e with
+  | some m => { verdict := .specfail m, stats := st }
+  | none => { verdict := .ok, nontrivial := hd && n > 0, stats := st }
+
+/-! ### routes -/
+
+def ptsOf (v : Array Rat) : List Pt :=
+  (List.range (v.size / 2)).map (fun i => (⟨v[2*i]!, v[2*i+1]!⟩ : Pt))
+
+def sceneOf (c : Case) : Scene :=
+  ((c.get "rect").filterMap (fun l => (nums? l).bind (fun v =>
+    if v.size == 4 then some (⟨⟨v[0]!, v[1]!⟩, ⟨v[2]!, v[3]!⟩⟩ : Rect) else none))).toList
+
+def connsOf (c : Case) : Array (Pt × Pt) :=
+  (c.get "conn").filterMap (fun l => (nums? l).bind (fun v =>
+    if v.size == 4 then some ((⟨v[0]!, v[1]!⟩ : Pt), (⟨v[2]!, v[3]!⟩ : Pt)) else none))
+
+def flag (c : Case) (k : String) : Nat := nat! (((c.get1 k).getD #["0"])[0]?.getD "0")
+def numOf (c : Case) (k : String) (i : Nat) : Rat := ((c.get1 k).bind (fun l => l[i]?.bind parseNum)).getD 0
+
+def ptStr (p : Pt) : String := s!"({ratToString p.x},{ratToString p.y})"
+def routeStr (r : List Pt) : String := " ".intercalate (r.map ptStr)
+
+def checkRouteTranslate (c : Case) : CaseResult := Id.run do
+  let tx := numOf c "shift" 0
+  let ty := numOf c "shift" 1
+  let orth := flag c "orth" == 1
+  let a := runVecs c "A"
+  let b := runVecs c "B"
+  if a.size != b.size then return { verdict := .specfail s!"route-translate: {a.size} vectors in A, {b.size} in B" }
+  let mut n := 0
+  let mut inexact := 0
+  let mut bendy := 0
+  for (lab, av) in a do
+    match findLabel b lab, nums? av with
+    | some bv, some ar =>
+      match nums? bv with
+      | none => return { verdict := .specfail s!"route-translate: non-finite value in {lab} (B)" }
+      | some br =>
+        if ar.size != br.size then
+          return { verdict := .specfail s!"route-translate: {lab} has {ar.size / 2} points, its translate {br.size / 2}: A={routeStr (ptsOf ar)} B={routeStr (ptsOf br)} shift=({ratToString tx},{ratToString ty})" }
+        let raw := !(lab.startsWith "display" || lab.startsWith "mdisplay")
+        if raw && ar.size > 4 then bendy := bendy + 1
+        for i in [0:ar.size] do
+          n := n + 1
+          let want := ar[i]! + (if i % 2 == 0 then tx else ty)
+          if br[i]! != want then
+            -- raw routes, and display routes of polyline connectors (no nudging), are copies of input
+            -- coordinates: exact.  Nudged orthogonal display routes come out of a VPSC division.
+            if raw || !orth || !(closeRel want br[i]!) then
+              return { verdict := .specfail s!"route-translate: {lab} coordinate {i} is {ratToString br[i]!}, expected {ratToString ar[i]!} + shift = {ratToString want}; A={routeStr (ptsOf ar)} B={routeStr (ptsOf br)}" }
+            inexact := inexact + 1
+    | _, _ => return { verdict := .specfail s!"route-translate: vector {lab} missing in B or non-finite in A" }
+  return { verdict := .ok, nontrivial := bendy > 0,
+           stats := [("values.compared", n), ("translate.display.rounded", inexact), ("routes.with.bends", bendy)] }
+
+/-- lower / upper bound of Σ√(sq) -/
+def lenLo (sq : List Rat) : Rat := sq.foldl (fun acc x => acc + sqrtLo x 60) 0
+def lenHi (sq : List Rat) : Rat := sq.foldl (fun acc x => acc + sqrtHi x 60) 0
+
+def checkRouteSymmetry (c : Case) : CaseResult := Id.run do
+  let orth := flag c "orth" == 1
+  let pen := numOf c "pen" 0
+  let sc := sceneOf c
+  let conns := connsOf c
+  let a := runVecs c "A"
+  let mut compared := 0
+  let mut sameRoute := 0
+  let mut otherRoute := 0
+  let mut bendy := 0
+  for l in c.get "S" do
+    if l.size < 2 then continue
+    let sym := Sym.ofIdx (nat! l[0]!)
+    let lab := l[1]!
+    let F := Frame.ofSym sym
+    let ci := nat! (lab.drop 5).toString
+    match findLabel a lab, nums? (l.extract 2 l.size) with
+    | some av, some br =>
+      match nums? av with
+      | none => return { verdict := .specfail s!"route-symmetry: non-finite value in A {lab}" }
+      | some ar =>
+        let ra := ptsOf ar
+        let rb := ptsOf br
+        compared := compared + 1
+        if bends ra > 0 then bendy := bendy + 1
+        -- the image problem's route must join the image endpoints
+        match conns[ci]? with
+        | some (s, d) =>
+          if rb.head? != some (F.act s) || rb.getLast? != some (F.act d) then
+            return { verdict := .specfail s!"route-symmetry: sym {nat! l[0]!} {lab} does not join the image endpoints: {routeStr rb}" }
+        | none => pure ()
+        let img := F.actRoute ra
+        if img == rb then sameRoute := sameRoute + 1 else otherRoute := otherRoute + 1
+        let va := !(routeHits sc ra)
+        let vb := !(routeHits (F.actScene sc) rb)
+        let ctx := fun (_ : Unit) => s!"sym {nat! l[0]!} {lab} pen={ratToString pen}: original route {routeStr ra} (obstacle-free={va}); route in the image scene {routeStr rb} (obstacle-free={vb}); image of the original route {routeStr img}"
+        if orth then
+          let ca := orthCost pen ra
+          let cb := orthCost pen rb
+          if ca != cb then
+            return { verdict := .specfail s!"route-symmetry: orthogonal cost changes under the symmetry: {ratToString ca} (length {ratToString (manhattanLen ra)}, bends {bends ra}) vs {ratToString cb} (length {ratToString (manhattanLen rb)}, bends {bends rb}); {ctx ()}" }
+        else
+          let pa := pen * ((bends ra : Nat) : Rat)
+          let pb := pen * ((bends rb : Nat) : Rat)
+          let loA := lenLo (sqLens ra) + pa
+          let hiA := lenHi (sqLens ra) + pa
+          let loB := lenLo (sqLens rb) + pb
+          let hiB := lenHi (sqLens rb) + pb
+          let tol := tolRel * (1 + hiA)
+          if loA > hiB + tol || loB > hiA + tol then
+            return { verdict := .specfail s!"route-symmetry: polyline cost changes under the symmetry: [{ratToString loA},…] vs [{ratToString loB},…] (bends {bends ra} vs {bends rb}); {ctx ()}" }
+    | _, _ => return { verdict := .specfail s!"route-symmetry: vector {lab} missing in A or non-finite" }
+  return { verdict := .ok, nontrivial := bendy > 0,
+           stats := [("sym.routes.compared", compared), ("sym.same.route.up.to.frame", sameRoute),
+                     ("sym.other.route.same.cost", otherRoute), ("routes.with.bends", bendy)] }
+
+/-! ### VPSC -/
+
+def maxAbs (v : Array Rat) : Rat := v.foldl (fun m x => if absRat x > m then absRat x else m) 1
+
+def checkVpscFrame (c : Case) (translate : Bool) : CaseResult := Id.run do
+  let t := if translate then numOf c "shift" 0 else 0
+  let d := ((c.get1 "d").bind nums?).getD #[]
+  let scale := maxAbs d + absRat t
+  let a := runVecs c "A"
+  let b := runVecs c "B"
+  let what := if translate then "vpsc-translate" else "vpsc-permute"
+  if a.size != b.size then return { verdict := .specfail s!"{what}: {a.size} vectors in A, {b.size} in B" }
+  let mut n := 0
+  let mut rounded := 0
+  let mut moved := 0
+  for (lab, av) in a do
+    match findLabel b lab, nums? av with
+    | some bv, some ar =>
+      match nums? bv with
+      | none => return { verdict := .specfail s!"{what}: non-finite position in B {lab}" }
+      | some br =>
+        if ar.size != br.size then return { verdict := .specfail s!"{what}: {lab} sizes differ" }
+        for i in [0:ar.size] do
+          n := n + 1
+          if i < d.size && ar[i]! != d[i]! then moved := moved + 1
+          let want := ar[i]! + t
+          if br[i]! != want then
+            if absRat (br[i]! - want) > tolRel * scale then
+              return { verdict := .specfail s!"{what}: {lab} variable {i}: {ratToString br[i]!} but expected {ratToString want} (= result of the original problem{if translate then " + shift" else ""}); scale {ratToString scale}" }
+            rounded := rounded + 1
+    | _, _ => return { verdict := .specfail s!"{what}: vector {lab} missing in B or non-finite in A" }
+  return { verdict := .ok, nontrivial := moved > 0,
+           stats := [("values.compared", n), (what ++ ".rounded", rounded), ("vpsc.vars.moved.by.constraints", moved)] }
+
+def run (_args : List String) : IO UInt32 :=
+  runCases (fun c =>
+    if c.tag == "route-twice" then checkTwice c "not reproducible (route)"
+    else if c.tag == "vpsc-twice" then checkTwice c "not reproducible (vpsc)"
+    else if c.tag == "removeoverlaps-twice" then checkTwice c "not reproducible (removeoverlaps, distinct centres)"
+    else if c.tag == "removeoverlaps-coincident" then checkTwice c "not reproducible (removeoverlaps, coincident centres)"
+    else if c.tag == "layout-twice" then checkLayoutTwice c
+    else if c.tag == "route-translate" then checkRouteTranslate c
+    else if c.tag == "route-symmetry" then checkRouteSymmetry c
+    else if c.tag == "vpsc-translate" then checkVpscFrame c true
+    else if c.tag == "vpsc-permute" then checkVpscFrame c false
+    else { verdict := .diverge s!"unknown case tag {c.tag}" }) (maxSamples := 4)
 
 end Driver.C20
